@@ -55,7 +55,12 @@ Check(r) ==
       c6 == ((r.virtual => \A j \in 1..Len(F) :
             (F[j].t < 86400000 /\ TimeFormat(F[j].time)) => (SubSeq(F[j].time, 1, 8) = VirtualDate /\ MsOfDay(F[j].time) = F[j].t))
            \/ Rej(r, "SendingTime was not taken at send time", [kind |-> r.kind]))
-  IN (c1 \in BOOLEAN) /\ (c2 \in BOOLEAN) /\ (c3 \in BOOLEAN) /\ (c4 \in BOOLEAN) /\ (c5 \in BOOLEAN) /\ (c6 \in BOOLEAN)
+      \* (C14) on a connection of an application whose sessions share what the API lets them share (options value, unmarshaller):
+      \* every echo is one of THIS connection's TestReqIDs, in the order they were sent
+      c7 == (Len(r.expEcho) = 0 \/ (\A j \in 1..Len(E) : j <= Len(r.expEcho) /\ num(E[j]) = r.expEcho[j])
+             \/ RejP("C14", r, "a Heartbeat echoes a TestReqID that was not sent on this connection, or not at that point",
+                     [got |-> [j \in 1..Len(E) |-> num(E[j])], sent |-> r.expEcho]))
+  IN (c1 \in BOOLEAN) /\ (c2 \in BOOLEAN) /\ (c3 \in BOOLEAN) /\ (c4 \in BOOLEAN) /\ (c5 \in BOOLEAN) /\ (c6 \in BOOLEAN) /\ (c7 \in BOOLEAN)
 
 Init == l = 1
 Next == l <= Len(Trace) /\ (Check(Trace[l]) \in BOOLEAN) /\ l' = l + 1
